@@ -280,6 +280,12 @@ Theorem C05_compile_fn_correct_closures_partial :
   (family_uses [OpSetUpvalue] family_closures, family_uses [OpCloseUpvalue] family_closures) = (20, 5).
 Proof. exact compile_fn_correct_closures_partial. Qed.
 
+(* a failing assignment changes nothing: SetGlobal on an undefined name raises with the world it found *)
+Theorem C05_set_global_failure_unchanged : forall x pc v stk w,
+  lookup (globals w) x = None ->
+  step_instr (IGlobal OpSetGlobal x) pc (v :: stk) w = SErr (NameError (msg_undefined x)) w.
+Proof. exact set_global_failure_unchanged. Qed.
+
 Print Assumptions C05_side_rules_table.
 Print Assumptions C05_side_opcode_names.
 Print Assumptions C05_side_binary_arms.
@@ -332,3 +338,4 @@ Print Assumptions C05_side_frames_max.
 Print Assumptions C05_compile_fn_correct_nocapture.
 Print Assumptions C05_compile_fn_correct_readonly_partial.
 Print Assumptions C05_compile_fn_correct_closures_partial.
+Print Assumptions C05_set_global_failure_unchanged.
